@@ -98,8 +98,16 @@ def BinaryOp.storeFree : BinaryOp → Bool
     original constructor call instead) -/
 def CallDRT (fn : String) : Prop := ∀ vs w, callExt fn vs = .ok w → w.DRT
 
-/-- the fragment of expressions covered by `pinterp_sound_partial` (no unknowns in the policy text, no record
-    constructors; extension calls for functions satisfying `CallDRT`) -/
+/-- expressions whose partial interpretation never leaves a record literal as residual: not a record constructor,
+    and not an `if` with such a branch -/
+def NR : Expr → Prop
+  | .record _ => False
+  | .ite _ t e => NR t ∧ NR e
+  | _ => True
+
+/-- the fragment of expressions covered by `pinterp_sound_partial` (no unknowns in the policy text; extension calls
+    for functions satisfying `CallDRT`; `.`/`has` not directly on a record constructor — `NR` —, whose residual
+    `get_attr` would project into and re-interpret) -/
 inductive Frag : Expr → Prop
   | lit (p : Prim) : Frag (.lit p)
   | var (v : Var) : Frag (.var v)
@@ -109,11 +117,12 @@ inductive Frag : Expr → Prop
   | or {a b : Expr} : Frag a → Frag b → Frag (.or a b)
   | unaryApp (op : UnaryOp) {a : Expr} : Frag a → Frag (.unaryApp op a)
   | binaryApp (op : BinaryOp) {a b : Expr} : Frag a → Frag b → Frag (.binaryApp op a b)
-  | getAttr {e : Expr} (a : String) : Frag e → Frag (.getAttr e a)
-  | hasAttr {e : Expr} (a : String) : Frag e → Frag (.hasAttr e a)
+  | getAttr {e : Expr} (a : String) : NR e → Frag e → Frag (.getAttr e a)
+  | hasAttr {e : Expr} (a : String) : NR e → Frag e → Frag (.hasAttr e a)
   | like {e : Expr} (p : Pattern) : Frag e → Frag (.like e p)
   | is {e : Expr} (ty : EntityType) : Frag e → Frag (.is e ty)
   | set {xs : List Expr} : (∀ x, x ∈ xs → Frag x) → Frag (.set xs)
+  | record {kvs : List (String × Expr)} : (∀ kv, kv ∈ kvs → Frag kv.2) → Frag (.record kvs)
   | call (fn : String) {args : List Expr} : fn ≠ "unknown" → CallDRT fn → (∀ x, x ∈ args → Frag x) → Frag (.call fn args)
 
 /-! ### the concrete store seen through `PEntities.ofConcrete` -/
